@@ -176,6 +176,12 @@ RULE = ('every descriptor the real loader exports (ESTA + manufacturer, GET/SET 
         'SupportedPids); every decode/re-encode case additionally goes through PidStoreHelper::DeserializeMessage / '
         'SerializeMessage (key helper); `load k` loads data/rdm through 9 spellings of its path (trailing /, //, '
         '/./, relative, empty = default location) and compares a digest of the whole table (keys ld, dg); '
+        '`ldf`: every shipped file alone through RootPidStore::LoadFromFile / PidStoreLoader::LoadFromFile / '
+        'LoadFromStream, validate on and off, against an independent reading of that file; `ldo`: the shipped files '
+        '(symlinked into a scratch directory) plus a generated overrides.proto (one PID of every multi-PID '
+        'manufacturer, ESTA PIDs, new PIDs, new manufacturers, mixtures; or none) through LoadFromDirectory of '
+        'RootPidStore and PidStoreLoader and LoadFromStream, validate on and off, against the model table '
+        'override_descs/override_pids (key lx + digest; the digest also checks the by-name index); '
         '`conc T N`: T threads with their own deserializer/serializer decode a fixed work list N times and count '
         'results differing from the single-threaded answers (key conc; races are detected probabilistically, a '
         'correct tree cannot fail) - detection of pointer-keyed caches depends on heap address reuse and is '
@@ -202,7 +208,7 @@ TRUSTED = ['modelled rather than verified: Descriptor.h/.cpp size functions, Des
            'GroupSizeCalculator is modelled (gcalc) and compared on every case with the payload length as token '
            'count (key gs, internal); PidStoreHelper, StringMessageBuilder and the message printers are outside '
            'the decode/re-encode path and not covered']
-SPEC_KEYS = ['h', 'ld', 'dg', 'conc', 'items', 'helper', 'r', 'ser', 'same', 'again', 'shared', 'ldes', 'sweep', 'n', 'cc', 'specfail', 'ndesc', 'npids', 'load']
+SPEC_KEYS = ['h', 'ld', 'lx', 'nstores', 'dg', 'conc', 'items', 'helper', 'r', 'ser', 'same', 'again', 'shared', 'ldes', 'sweep', 'n', 'cc', 'specfail', 'ndesc', 'npids', 'load']
 # not property-determined (internal): d (descriptor text), cs (calculator state), gs (GroupSizeCalculator state),
 # m (message text), cap (m_buffer_size)
 INTERNAL_KEYS = []
@@ -457,10 +463,126 @@ def _gen_lookups(rng, ents, n):
         yield 'look M%d,M%d,M%d,V%d:%d,V%d:%d,N%s:%d' % (m, u, u, pid, u, pid, m, hexname(nm), u)
 
 
+# ---------------------------------------------------------------- loader entry points / overrides
+def _digest(entries):
+    """order-independent digest, same definition as in harness.cpp / driver.ml"""
+    s1 = s2 = 0
+    for t in entries:
+        h1, h2 = 7, 11
+        for c in t.encode('latin-1', 'replace'):
+            h1 = (h1 * 131 + c) % 1000000007
+            h2 = (h2 * 257 + c) % 998244353
+        s1 = (s1 + h1) % 1000000007
+        s2 = (s2 + h2) % 998244353
+    return '%d.%d' % (s1, s2)
+
+
+def _read_file_table(path):
+    """independent reading of ONE data file: (descriptor entries, pid entries, store ids, duplicate?)"""
+    tree = _pb_text(open(path, encoding='utf-8', errors='replace').read())
+    kinds = {'get_request': 0, 'get_response': 1, 'set_request': 2, 'set_response': 3}
+    descs, pids, stores = {}, {}, [0]
+    dup = False
+
+    def add(man, items):
+        nonlocal dup
+        names = set()
+        for k, v in items:
+            if k != 'pid':
+                continue
+            val = [x for kk, x in v if kk == 'value'][0]
+            name = [x for kk, x in v if kk == 'name'][0]
+            if (man, val) in pids or name in names:
+                dup = True
+                continue
+            names.add(name)
+            pids[(man, val)] = name
+            for kk, x in v:
+                if kk in kinds:
+                    descs[(man, val, kinds[kk])] = _frame_str(x)
+    add(0, tree)
+    for k, v in tree:
+        if k == 'manufacturer':
+            man = [x for kk, x in v if kk == 'manufacturer_id'][0]
+            if man in stores:
+                dup = True
+            else:
+                stores.append(man)
+            add(man, v)
+    return descs, pids, stores, dup
+
+
+OVR_SHAPES = ['-', 'u8', 'b', 'u16,s0:32', 'g0:-1[u8,u16]', 's2:2', 'u32,u8,u8', 'g0:4[uid]', 'ip4,mac', 'i16,i8']
+
+
+def _gen_loader_cases(rng, ents, tier):
+    quick = tier == 'quick'
+    data = os.path.join(os.environ.get('VERIF_REPO', '/repo'), 'data', 'rdm')
+    # (1) every single shipped file through LoadFromFile / PidStoreLoader::LoadFromFile / LoadFromStream
+    for fn in sorted(os.listdir(data)):
+        if not fn.endswith('.proto'):
+            continue
+        try:
+            descs, pids, stores, dup = _read_file_table(os.path.join(data, fn))
+        except Exception:
+            continue
+        ent = (['D:%d:%d:%d:%s' % (k + (d,)) for k, d in descs.items()] +
+               ['P:%d:%d:%s' % (k + (n,)) for k, n in pids.items()] + ['S:%d' % m for m in stores])
+        for validate in (1, 0):
+            if dup and validate:
+                continue      # strict validation refuses duplicates; the shipped files have none
+            for entry in ('file', 'loader', 'stream'):
+                yield 'ldf %d %s %s %d %d %d %s' % (validate, entry, fn, len(descs), len(pids), len(stores), _digest(ent))
+    # (2) the whole directory (+ generated overrides.proto) through every entry point and flag
+    by_man = {}
+    for m, pid, kind, d, name in ents:
+        by_man.setdefault(m, {})[pid] = name
+    known = sorted(k for k in by_man if k != 0)
+    multi = [m for m in known if len(by_man[m]) >= 2]
+
+    def frames():
+        f = [rng.choice(OVR_SHAPES) if rng.random() < 0.7 else '~' for _ in range(4)]
+        return '/'.join(f)
+
+    def entry_existing(m):
+        pid = rng.choice(sorted(by_man[m]))
+        return '%d/%d/%s/%s' % (m, pid, by_man[m][pid], frames())
+
+    def entry_new_pid(m, i):
+        # ESTA PIDs must stay outside the manufacturer range (strict validation), manufacturer PIDs inside
+        lo = 0x7f00 if m == 0 else 0x8000
+        pid = rng.choice([p for p in range(lo, lo + 0x40) if p not in by_man.get(m, {})])
+        return '%d/%d/OVR_NEW_%d/%s' % (m, pid, i, frames())
+
+    specs = ['none']
+    for m in (rng.sample(multi, min(5, len(multi))) if quick else multi):   # one PID of a multi-PID manufacturer
+        specs.append(entry_existing(m))
+    for _ in range(2 if quick else 30):
+        specs.append(entry_existing(0))               # an ESTA PID
+        newman = rng.choice([x for x in (1, 2, 0x7ff0, 0x1234, 65535, rng.randrange(1, 65536)) if x not in by_man])
+        specs.append(entry_new_pid(newman, 0))        # a manufacturer nobody ships
+        specs.append(entry_new_pid(rng.choice(known), 1))   # a new PID of a shipped manufacturer
+        parts = {}                                    # a mixture (distinct (manufacturer, pid) keys and names)
+        for i in range(rng.choice([2, 3, 5])):
+            m = rng.choice([0, rng.choice(known), rng.choice(multi), newman])
+            e = entry_new_pid(m, i) if (m not in by_man or rng.random() < 0.3) else entry_existing(m)
+            parts[tuple(e.split('/')[:2])] = e
+        if len(set(e.split('/')[2] + '@' + e.split('/')[0] for e in parts.values())) == len(parts):
+            specs.append('+'.join(parts.values()))
+    for spec in specs:
+        for validate in (1, 0):
+            for entry in (('dir', 'dirl', 'stream') if spec == 'none' else ('dir', 'dirl')):
+                if quick and spec != 'none' and rng.random() < 0.5:
+                    continue
+                yield 'ldo %d %s %s' % (validate, entry, spec)
+
+
 def _gen_cases(rng, tier):
     quick = tier == 'quick'
     ents = _load_tsv()
     yield 'store'
+    for c in _gen_loader_cases(rng, ents, tier):
+        yield c
     for c in _gen_lookups(rng, ents, 600 if quick else 6000):
         yield c
     shapes = {}
